@@ -644,18 +644,33 @@ def cv12(prog, rr):
     for n in ast.walk(cov.tree):
         if isinstance(n, ast.Call) and call_name(n) == "valmask2binlist":
             n_cons += 1
-            a = [norm(x) for x in n.args]
-            rr.inst("valmask2binlist(%s)" % ", ".join(a))
+            a_all = [norm(x) for x in n.args]
+            a = a_all[:2]
+            rr.inst("valmask2binlist(%s)" % ", ".join(a_all))
             ok = len(a) == 2 and (a[0].endswith("[0]") and a[1].endswith("[1]"))
+            from_str = None
             if not ok and len(a) == 2:
                 # a pair unpacked from str2bin:  X, Y = WildcardBinFactory.str2bin(..)  ->  valmask2binlist(X, Y)
+                best = None
                 for u in ast.walk(cov.tree):
                     if isinstance(u, ast.Assign) and isinstance(u.targets[0], ast.Tuple) and len(u.targets[0].elts) == 2 \
                             and isinstance(u.value, ast.Call) and call_name(u.value) == "str2bin" \
-                            and [norm(e) for e in u.targets[0].elts] == a:
-                        ok = True
+                            and [norm(e) for e in u.targets[0].elts] == a and u.lineno <= n.lineno:
+                        if best is None or u.lineno > best.lineno:
+                            best = u
+                if best is not None:
+                    ok = True
+                    from_str = norm(best.value.args[0]) if best.value.args else None
             if not ok:
                 rr.finding(cov, n, "coverage.valmask2binlist call", "CV12: value/mask passed as (%s)" % ", ".join(a))
+            elif from_str is not None:
+                # a pattern string also says how many bits it spells: wildcard digits above the highest fixed bit are part of the
+                # pattern and must reach the expander, which otherwise only sees the integers
+                w = a_all[2] if len(a_all) > 2 else None
+                if w is None or "str2width(%s)" % from_str not in w:
+                    rr.finding(cov, n, "coverage.valmask2binlist call", "CV12: the bins of the pattern string %s are expanded without its width (%s): wildcard "
+                               "digits above the highest fixed bit are lost, so '0bxx01' yields the single value 1 instead of 1, 5, 9, 13"
+                               % (from_str, w), text="pattern width not passed")
     rr.require(n_cons >= 1, "no consumer of valmask2binlist found in coverage.py")
 
 
